@@ -672,7 +672,7 @@ func (cl *Cluster) Close() {
 		_ = c.Store.Close()
 	}
 	if cl.mockCli != nil {
-		_ = cl.mockCli.Close()
+		CloseMock(cl.mockCli)
 	}
 	if cl.uniCli != nil {
 		_ = cl.uniCli.Close()
@@ -752,6 +752,25 @@ func GoroutineDump() string {
 		keep = keep[:10]
 	}
 	return strings.Join(keep, "\n\n")
+}
+
+// CloseMock closes a mocktikv client together with ALL leveldb instances of its store: RPCClient.Close only
+// closes the default column family, the instances created for other column families (raw KV) would keep their
+// 4 MB memtables alive through their background goroutines.
+func CloseMock(c *mocktikv.RPCClient) {
+	defer func() { _ = recover() }()
+	if m, ok := c.MvccStore.(*mocktikv.MVCCLevelDB); ok {
+		f := reflect.ValueOf(m).Elem().FieldByName("dbs")
+		dbs := reflect.NewAt(f.Type(), unsafe.Pointer(f.UnsafeAddr())).Elem()
+		for _, k := range dbs.MapKeys() {
+			if k.String() != "test_cf" {
+				if cl := dbs.MapIndex(k).MethodByName("Close"); cl.IsValid() {
+					cl.Call(nil)
+				}
+			}
+		}
+	}
+	_ = c.Close()
 }
 
 // closeUniDB closes the badger DB of a stopped unistore instance. unistore's own Close stops the server and
